@@ -233,7 +233,14 @@ func (ch *chain) buildTx(tx *hTx) *builtTx {
 		case "dao":
 			return govtypes.MsgDAOTransfer{FromAddress: fromAddr, ToAddress: ch.addrOf(tx.To), Amount: amount, Action: tx.Str}
 		case "upgrade":
-			return govtypes.MsgUpgrade{Address: fromAddr, Upgrade: govtypes.NewUpgrade(1000000000+tx.Amt, tx.Str)}
+			// a plan for a version the running application ("0.0.1") already satisfies may name a height inside the
+			// history (the chain walks past it); a plan for a later version would stop the process at its height and
+			// is therefore scheduled far in the future
+			h := 1000000000 + tx.Amt
+			if tx.Str <= "0.0.1" {
+				h = tx.Amt % 40
+			}
+			return govtypes.MsgUpgrade{Address: fromAddr, Upgrade: govtypes.NewUpgrade(h, tx.Str)}
 		}
 		return postypes.MsgSend{FromAddress: fromAddr, ToAddress: fromAddr, Amount: amount}
 	}
